@@ -161,7 +161,10 @@ Applicable(sp, f) ==
           \* a staterror name reused by the SAME sample in another channel is a coherent model in pyhf
           \* (one gamma per covered bin, nothing shared or dropped); the inconsistent case is a
           \* different sample carrying the name in a channel of another bin count
-          /\ (f.t = STATERROR => \A o \in Occ(sp) : o.name = f.n => o.sname # sp.channels[f.i].samples[f.j].name)
+          /\ (f.t = STATERROR =>
+                LET inj == sp.channels[f.i].samples[f.j].name
+                    Cov(sn) == {o.c : o \in {x \in Occ(sp) : x.name = f.n /\ x.sname = sn}}
+                IN \E o \in Occ(sp) : o.name = f.n /\ o.sname # inj /\ Cov(o.sname) # Cov(inj) \cup {f.i})
     [] f.kind = "conflict_type" ->
           /\ \E o \in Occ(sp) : o.name = f.n /\ ReqClass(o.type) # ReqClass(f.t)
           /\ ~\E k \in DOMAIN sp.channels[f.i].samples[f.j].mods :
@@ -218,5 +221,7 @@ CleanIsWF     == phase = "clean"  => WF(spec)
 FaultBreaksWF == phase = "faulty" => ~WF(spec)
 \* what the implementation-shaped layer would silently compute (explanation attached to a finding)
 VCase == [spec |-> spec, fault |-> fault, clean |-> phase = "clean"]
-VEmit == (EmitCases /\ phase \in {"faulty", "clean"} /\ SpecHash % EmitMod = EmitRes) => PrintT(ToJson(VCase))
+\* the rare fault class (bin-wise sharing, a few thousand states) is always printed; the others by specification hash
+VEmit == (EmitCases /\ phase \in {"faulty", "clean"}
+          /\ (SpecHash % EmitMod = EmitRes \/ (phase = "faulty" /\ fault[1].kind = "binwise_shared"))) => PrintT(ToJson(VCase))
 =============================================================================
